@@ -15,6 +15,12 @@ use std::collections::{BTreeMap, HashMap};
 /// are keyed from the library root by the implementation — finding D12 — and are exercised by the
 /// known-finding witness instead), no links inside block quotes (finding D22)
 pub fn gen_library(r: &mut Rng, with_known_features: bool) -> Vec<(String, String)> {
+    gen_library_opts(r, with_known_features, false)
+}
+
+/// `quoted_links`: note links inside block quotes are allowed (they have no line of their own — finding D22 — which matters
+/// to the properties that report lines, not to those that rewrite links)
+pub fn gen_library_opts(r: &mut Rng, with_known_features: bool, quoted_links: bool) -> Vec<(String, String)> {
     let n = r.range(2, 6);
     let mut pool: Vec<String> = hist::KEY_POOL.iter().map(|s| s.to_string()).collect();
     for i in (1..pool.len()).rev() {
@@ -33,7 +39,7 @@ pub fn gen_library(r: &mut Rng, with_known_features: bool) -> Vec<(String, Strin
             let mut text;
             loop {
                 text = gen::document(r, &p);
-                if with_known_features {
+                if with_known_features || quoted_links {
                     break;
                 }
                 let rd = md::read(&text, &crate::oracle::md::dir_of(k));
